@@ -261,7 +261,7 @@ def check_thick(rep, sc, threads, rng, idx, tier):
     from .units_map import sparse_of_pint
     nd = sc["m"]["nd"]
     den = sc["basis"]["den"]
-    lbox = [1.0, 4.0][idx % 2]
+    lbox = [1.0, 4.0, 3.0856775814913673e18][idx % 3]          # (third: 1 pc in cm, rounded coordinates as in check_thin)
     f = lbox / 32.0
     dg, vec = build_group(sc, lbox)
     if idx % 7 == 3:
